@@ -36,6 +36,7 @@ var tablesSchema = []defSpec{
 	{"binaryOpOrder", "List String"},
 	{"dumpPrintsValue", "List String"},
 	{"dumpFormats", "List (String × String)"},
+	{"dumpTemplates", "List (String × List String)"},
 	{"evaluateBranches", "List (String × List String)"},
 	{"funcTokens", "List (String × List String)"},
 	{"funcFiles", "List (String × String)"},
@@ -129,7 +130,7 @@ func extractTables(files map[string]*srcFile) (map[string]lval, []string) {
 	vals["coerceBodies"] = lKeyed(cbodies)
 
 	// e. matchDispatch
-	vals["matchDispatch"] = lTriples(matchDispatch(findFn("evaluateMatchExpression", ev)))
+	vals["matchDispatch"] = lTriples(matchDispatch(findFn("evaluateMatchExpression", ev), pkg))
 
 	// f. notPresent
 	var np lList
@@ -202,7 +203,8 @@ func extractTables(files map[string]*srcFile) (map[string]lval, []string) {
 		vals[t[0]] = lStrs(names)
 	}
 
-	// h. dumpPrintsValue, dumpFormats
+	// h. dumpPrintsValue, dumpFormats, dumpTemplates (the raw format strings are
+	// informational; the tie pins the templates computed from them, facts_dump.go)
 	vals["dumpPrintsValue"] = lStrs(dumpPrintsValue(findFn("MatchExpression.ExpressionDump", as)))
 	var formats [][2]string
 	for _, f := range funcsOf(as) {
@@ -242,6 +244,14 @@ func extractTables(files map[string]*srcFile) (map[string]lval, []string) {
 		})
 	}
 	vals["dumpFormats"] = lPairs(formats)
+	var templates []keyedToks
+	for _, f := range funcsOf(as) {
+		if f.fd.Name.Name == "ExpressionDump" && f.fd.Recv != nil {
+			f := f
+			templates = append(templates, dumpTemplates(&f)...)
+		}
+	}
+	vals["dumpTemplates"] = lKeyed(templates)
 
 	// i. evaluateBranches
 	vals["evaluateBranches"] = lKeyed(evaluateBranches(findFn("evaluate", ev)))
@@ -427,7 +437,8 @@ func opSwitch(f *fnDecl, fname string) []opEntry {
 }
 
 // matchDispatch reads the `switch expression.Operator` of evaluateMatchExpression.
-func matchDispatch(f *fnDecl) [][3]string {
+// pkg: the files of package bexpr (where a negation helper is looked up).
+func matchDispatch(f *fnDecl, pkg []*srcFile) [][3]string {
 	if f == nil || f.fd.Body == nil {
 		return [][3]string{{unk("func evaluateMatchExpression not found"), unk("missing"), ""}}
 	}
@@ -468,7 +479,7 @@ func matchDispatch(f *fnDecl) [][3]string {
 				out = append(out, [3]string{"default", shape, ""})
 				continue
 			}
-			shape, callee := dispatchShape(sf, cc.Body)
+			shape, callee := dispatchShape(sf, cc.Body, pkg)
 			for _, e := range cc.List {
 				k := unk(sf.oneLine(e))
 				if p, n, ok := pkgSel(e); ok && p == "grammar" {
@@ -484,26 +495,78 @@ func matchDispatch(f *fnDecl) [][3]string {
 	return out
 }
 
-func dispatchShape(sf *srcFile, body []ast.Stmt) (shape, callee string) {
-	// direct: return f(expression, rvalue)
+// matcherCall recognises `f(expression, rvalue)` with f an identifier.
+func matcherCall(e ast.Expr) (callee string, ok bool) {
+	call, isCall := e.(*ast.CallExpr)
+	if !isCall || call.Ellipsis.IsValid() || len(call.Args) != 2 ||
+		!isIdent(call.Args[0], "expression") || !isIdent(call.Args[1], "rvalue") {
+		return "", false
+	}
+	id, isID := call.Fun.(*ast.Ident)
+	if !isID {
+		return "", false
+	}
+	return id.Name, true
+}
+
+// negationBody recognises the two ways of writing "pass an error on with
+// false, otherwise negate the result" over the variables b (bool) and e (error):
+//
+//	if e == nil { return !b, nil }; return false, e
+//	if e != nil { return false, e }; return !b, nil
+func negationBody(sf *srcFile, stmts []ast.Stmt, b, e string) bool {
+	if len(stmts) != 2 {
+		return false
+	}
+	t0, t1 := sf.toks(stmts[0]), sf.toks(stmts[1])
+	return sameStrings(t0, []string{"if", e, "==", "nil", "{", "return", "!", b, ",", "nil", "}"}) &&
+		sameStrings(t1, []string{"return", "false", ",", e}) ||
+		sameStrings(t0, []string{"if", e, "!=", "nil", "{", "return", "false", ",", e, "}"}) &&
+			sameStrings(t1, []string{"return", "!", b, ",", "nil"})
+}
+
+// isNegationHelper: f is a package-level function `func H(b bool, e error)
+// (bool, error)` whose body is negationBody over its two parameters.
+func isNegationHelper(f *fnDecl) bool {
+	if f == nil || f.fd.Recv != nil || f.fd.Body == nil || f.fd.Type.TypeParams != nil ||
+		f.fd.Type.Params == nil || f.fd.Type.Results == nil {
+		return false
+	}
+	sf := f.sf
+	ps := paramNames(f.fd.Type)
+	if len(ps) != 2 || ps[0] == "_" || ps[1] == "_" || ps[0] == ps[1] {
+		return false
+	}
+	if !sameStrings(sf.toks(f.fd.Type.Params), []string{"(", ps[0], "bool", ",", ps[1], "error", ")"}) ||
+		!sameStrings(sf.toks(f.fd.Type.Results), []string{"(", "bool", ",", "error", ")"}) {
+		return false
+	}
+	return negationBody(sf, f.fd.Body.List, ps[0], ps[1])
+}
+
+// dispatchShape reads the body of one operator case:
+//
+//	direct:   return f(expression, rvalue)
+//	negated:  result, err := f(expression, rvalue); <negationBody over result, err>
+//	negated:  return H(f(expression, rvalue))   with H a negation helper of the package
+func dispatchShape(sf *srcFile, body []ast.Stmt, pkg []*srcFile) (shape, callee string) {
 	if r := singleReturn(body, 1); r != nil {
-		if call, ok := r.Results[0].(*ast.CallExpr); ok && !call.Ellipsis.IsValid() && len(call.Args) == 2 &&
-			isIdent(call.Args[0], "expression") && isIdent(call.Args[1], "rvalue") {
-			if id, ok := call.Fun.(*ast.Ident); ok {
-				return "direct", id.Name
+		if callee, ok := matcherCall(r.Results[0]); ok {
+			return "direct", callee
+		}
+		if outer, ok := r.Results[0].(*ast.CallExpr); ok && !outer.Ellipsis.IsValid() && len(outer.Args) == 1 {
+			if h, ok := outer.Fun.(*ast.Ident); ok {
+				if callee, ok := matcherCall(outer.Args[0]); ok && isNegationHelper(findFn(h.Name, pkg...)) {
+					return "negated", callee
+				}
 			}
 		}
 	}
-	// negated: result, err := f(expression, rvalue); if err == nil { return !result, nil }; return false, err
 	if len(body) == 3 {
-		t0 := sf.toks(body[0])
-		want0 := []string{"result", ",", "err", ":=", "", "(", "expression", ",", "rvalue", ")"}
-		if len(t0) == len(want0) && token.IsIdentifier(t0[4]) {
-			want0[4] = t0[4]
-			if sameStrings(t0, want0) &&
-				sameStrings(sf.toks(body[1]), []string{"if", "err", "==", "nil", "{", "return", "!", "result", ",", "nil", "}"}) &&
-				sameStrings(sf.toks(body[2]), []string{"return", "false", ",", "err"}) {
-				return "negated", t0[4]
+		if as, ok := body[0].(*ast.AssignStmt); ok && as.Tok == token.DEFINE && len(as.Lhs) == 2 && len(as.Rhs) == 1 &&
+			isIdent(as.Lhs[0], "result") && isIdent(as.Lhs[1], "err") {
+			if callee, ok := matcherCall(as.Rhs[0]); ok && negationBody(sf, body[1:], "result", "err") {
+				return "negated", callee
 			}
 		}
 	}
